@@ -14,4 +14,9 @@ export CARGO_TARGET_DIR=$wt/target
   echo "demo without patch: $(cargo test --offline --manifest-path kiki/Cargo.toml --test demo 2>&1 | grep -E '^test result')"
   git stash pop -q; rm -rf kiki/tests )
 unset CARGO_TARGET_DIR
-tools/seeded.sh $name "$@"
+if [ -n "${ISOLATED:-}" ]; then
+    # /repo is being read by a long run: test on copies (results are not merged into checks_quick.json; re-run tools/seeded.sh later)
+    tools/seeded_isolated.sh $name "$@"
+else
+    tools/seeded.sh $name "$@"
+fi
